@@ -65,7 +65,7 @@ import re
 from typing import Dict, List, Optional, Set, Tuple
 
 from .. import rx
-from ..cfg import Branch, cfg_of
+from ..cfg import Branch, cfg_of, origins
 from ..flow import bind_args, cone, concat_operands, is_method_bound
 from ..index import AnalysisError, FuncNode, call_name, calls_in, const, kwarg, last_attr, module_of, norm, short, walk_local
 from ..report import construct_of
@@ -1127,6 +1127,71 @@ def _r09f(chk, repo) -> None:
         chk.ok("R09f", "core templater classes", "no store to self outside __init__")
 
 
+def _r09h(chk, repo) -> None:
+    f = repo.fn("src/sqlfluff/core/templaters/base.py", "RawTemplater.get_context")
+    cfg = cfg_of(f)
+
+    def role(e, at) -> Optional[str]:
+        t = norm(e)
+        if t == "self.default_context":
+            return "default"
+        if t == "self.override_context":
+            return "override"
+        if isinstance(e, ast.Name):
+            os_ = origins(cfg, e, at)
+            if os_ and all(o.kind == "expr" for o in os_) and any(isinstance(x, ast.Call) and last_attr(x) == "get_section" for o in os_ for x in ast.walk(o.expr)):
+                return "config"
+        if any(isinstance(x, ast.Call) and last_attr(x) == "get_section" for x in ast.walk(e)):
+            return "config"
+        return None
+
+    rets = [r for r in walk_local(f) if isinstance(r, ast.Return) and r.value is not None]
+    n = 0
+    for r in rets:
+        v = r.value
+        order: Optional[List[str]] = None  # lowest priority first
+        base = v
+        if isinstance(v, ast.Call) and call_name(v) == "dict" and len(v.args) == 1:
+            base = v.args[0]
+        if isinstance(base, ast.Name):
+            # a fresh dict filled by update() calls
+            name = base.id
+            ups = []
+            for st in walk_local(f):
+                if isinstance(st, ast.Expr) and isinstance(st.value, ast.Call) and last_attr(st.value) == "update" and isinstance(st.value.func, ast.Attribute) \
+                        and isinstance(st.value.func.value, ast.Name) and st.value.func.value.id == name and st.value.args and cfg.reaches(st, r):
+                    ups.append(st)
+            ups.sort(key=lambda x: x.lineno)
+            if ups and all(cfg.dominates(a, b) for a, b in zip(ups, ups[1:])):
+                order = [role(u.value.args[0], u) for u in ups]
+            else:
+                os_ = origins(cfg, base, r)
+                base = os_[0].expr if len(os_) == 1 and os_[0].kind == "expr" else base
+        if order is None and isinstance(base, ast.Dict) and all(k is None for k in base.keys):
+            order = [role(x, r) for x in base.values]
+        if order is None and isinstance(base, ast.Call) and (call_name(base) or "").split(".")[-1] == "ChainMap":
+            order = [role(x, r) for x in reversed(base.args)]
+        if order is None and isinstance(base, ast.BinOp) and isinstance(base.op, ast.BitOr):
+            parts, cur = [], base
+            while isinstance(cur, ast.BinOp) and isinstance(cur.op, ast.BitOr):
+                parts.insert(0, cur.right)
+                cur = cur.left
+            parts.insert(0, cur)
+            order = [role(x, r) for x in parts]
+        if order is None:
+            raise AnalysisError(f"R09h: cannot read how get_context layers its sources ({short(v, 60)}); re-confirm the anchor by hand")
+        n += 1
+        seq = [o for o in order if o is not None]
+        chk.require(
+            seq == ["default", "config", "override"], "R09h", r,
+            f"get_context layers its sources as {' < '.join(str(o) for o in order)} (lowest first), not default < config < override: a value from the configuration file is shadowed by a "
+            "built-in default of the same name (or an override loses against the file)",
+            detail="get_context: default < config < override",
+        )
+    chk.count("R09h.context_returns", n)
+    chk.floor("R09h.context_returns", 1)
+
+
 def _r09g(chk, repo) -> None:
     """``_substring_occurrences`` compares occurrence counts of a literal in the source and in the rendered text to
     find invariant anchors; a count that skips overlapping occurrences (``))`` inside ``)))``) anchors a literal at an
@@ -1176,6 +1241,8 @@ def run(chk) -> None:
     chk.rule("R09d", "placeholder process: output = source[PREV:START] + replacement per match + source[PREV:]; replacement is the context value or name of the matched/numbered parameter; slice records use the same bounds")
     chk.rule("R09e", "python templater: the same unmodified in_str feeds slice_file, the raw slicer, the render function and TemplatedFile.source_str; templated_str is slice_file's render result")
 
+    chk.rule("R09h", "the templating context is layered default < config < override: RawTemplater.get_context puts self.default_context lowest, the section loaded from the config above it and self.override_context on top")
+    _r09h(chk, repo)
     chk.rule("R09g", "the occurrence counter the python templater's slicer relies on (helpers.string.findall) reports every occurrence, overlapping ones included: after a hit at idx the search resumes at idx + 1")
     _r09g(chk, repo)
 
@@ -1213,6 +1280,18 @@ from ..selftest import Variant  # noqa: E402
 HSTR = "src/sqlfluff/core/helpers/string.py"
 
 VARIANTS = [
+    Variant(
+        "context-defaults-above-the-config", "src/sqlfluff/core/templaters/base.py",
+        "        live_context.update(self.default_context)\n        live_context.update(loaded_context)\n",
+        "        live_context.update(loaded_context)\n        live_context.update(self.default_context)\n",
+        "R09h", "get_context", "seeded C09-6 (same effect): a `test_value` set in the config file renders as `__test__`",
+    ),
+    Variant(
+        "quiet-context-as-one-display", "src/sqlfluff/core/templaters/base.py",
+        "        live_context = {}\n        live_context.update(self.default_context)\n        live_context.update(loaded_context)\n        live_context.update(self.override_context)\n\n        return live_context\n",
+        "        return {**self.default_context, **loaded_context, **self.override_context}\n",
+        "QUIET", None, "R09h: the same layering as one dict display",
+    ),
     # behaviour-preserving refactors: must stay quiet
     Variant(
         "quiet-span-from-start-and-end", PH,
